@@ -133,6 +133,52 @@ func runC12(p *Prog, r *Report, tier string) {
 		r.Undecided("R-STOP.select", "anchor: blocking selects in pkg/collector", "pkg/collector", "fewer than 2 blocking selects found")
 	}
 
+	// datagram buffers: what is handed to the per-client goroutine must not be overwritten by the next read
+	if hu := p.Fn("(*pkg/collector.CollectingProcess).handleUDPMessage"); hu != nil {
+		for _, cs := range g.callers[hu] {
+			c := callOf(cs)
+			if c == nil || len(c.Args) < 3 {
+				continue
+			}
+			f := cs.Parent()
+			var under ssa.Value = c.Args[2]
+			if sl, ok := under.(*ssa.Slice); ok {
+				under = sl.X
+			}
+			fresh := false
+			if ms, ok := under.(*ssa.MakeSlice); ok && ms.Parent() == f && inLoop(ms.Block()) {
+				fresh = true
+			}
+			r.Check(fresh, "R-OWNER.datagram-buffer", fnKey(f)+": buffer handed to handleUDPMessage", p.instrPos(cs), "allocated per datagram inside the read loop (or a per-datagram copy)",
+				"the datagram handed to the per-client goroutine shares its array with the buffer of the next read: the message being decoded is overwritten by the following datagram (data race, corrupted delivery)", true)
+		}
+	}
+	// the handler goroutine that waits for stop must not block on the connection itself
+	for _, f := range p.RepoFns {
+		if !keyInPkg(fnKey(f), "pkg/collector") || len(f.Params) < 2 || typeName(f.Params[1].Type()) != "net.Conn" {
+			continue
+		}
+		sels, _, _ := p.blockingOps(f)
+		if len(sels) == 0 {
+			continue
+		}
+		conn := ssa.Value(f.Params[1])
+		eachInstr(f, func(in ssa.Instruction) {
+			switch x := in.(type) {
+			case *ssa.TypeAssert:
+				if x.X == conn {
+					r.Violation("R-STOP.handler-blocking", fnKey(f)+": connection used through a type assertion", p.instrPos(in), "the handler reaches transport-specific (possibly blocking) methods of the connection before it starts waiting for stop")
+				}
+			case *ssa.Call:
+				if x.Call.IsInvoke() && x.Call.Value == conn {
+					m := x.Call.Method.Name()
+					ok := m == "RemoteAddr" || m == "LocalAddr" || m == "Close"
+					r.Check(ok, "R-STOP.handler-blocking", fmt.Sprintf("%s: conn.%s in the handler", fnKey(f), m), p.instrPos(in), "non-blocking accessor",
+						"the handler goroutine (tracked by the wait group) calls a blocking method on the connection before its stop select: Stop() cannot return while a peer stalls there", true)
+				}
+			}
+		})
+	}
 	// delivery order: decodePacket is called synchronously from the readers (call instruction is a plain Call)
 	dp := p.Fn("(*pkg/collector.CollectingProcess).decodePacket")
 	if dp == nil {
